@@ -326,9 +326,11 @@ func c08ClassEdges(r *lp.Run) {
 		{`[[]`, `\[`}, {`^[a[]$`, `^[a\[]$`}, {`^[[a]$`, `^[\[a]$`}, {`[a-]`, `[a\-]`}, {`^[-a]$`, `^[\-a]$`}, {`^[]a]$`, `^` + noC + `a\]$`}, {`[^]a]`, anyC + `a\]`},
 		{`^[$]$`, `^\$$`}, {`^[|]$`, `^\|$`}, {`^[*+?]$`, `^[*+?]$`}, {`^[{}]$`, `^[{}]$`}, {`^[a-c-e]$`, `^[a-c\-e]$`}, {`^[^-a]$`, `^[^\-a]$`},
 		{`[]`, noC}, {`[^]`, anyC}, {`^[]*$`, `^$`}, {`^[^]*$`, `^` + anyC + `*$`}, {`^a[]|b$`, `^a` + noC + `|b$`}, {`^[[]]$`, `^\[\]$`}, {`^[[][]]$`, `^\[` + noC + `\]$`},
+		// an escaped hyphen between two atoms is a hyphen, not a range
+		{`^[+\-.]$`, `^[+\-.]$`}, {`^[a\-c]$`, `^[a\-c]$`}, {`^[$\-|]$`, `^[$\-|]$`}, {`^[^a\-e]$`, `^[^a\-e]$`}, {`^[\--\-]$`, `^\-$`}, {`^[*\-{]$`, `^[*\-{]$`},
 		{`[[=a=]]`, `[\[=a]\]`}, {`^[[.a.]]$`, `^[\[.a]\]$`}, {`^[a&&b]$`, `^[a&b]$`}, {`^[a~~b]$`, `^[a~b]$`},
 	}
-	alpha := []rune{']', '[', ':', 'a', 'l', 'p', 'h', 'b', 'c', 'd', 'e', 'x', '1', '-', '^', '$', '|', '*', '{', '}', '=', '&', '~', '.', 'é', '\n'}
+	alpha := []rune{']', '[', ':', 'a', 'l', 'p', 'h', 'b', 'c', 'd', 'e', 'x', '1', '-', '^', '$', '|', '*', '{', '}', '=', '&', '~', '.', ',', '+', 'é', '\n'}
 	subjects := []string{""}
 	for _, a := range alpha {
 		subjects = append(subjects, string(a))
